@@ -392,6 +392,53 @@ theorem C13_orig_swallows_behind_nested_group (d : Dicts) (mt : Bytes) (G N : Ta
     grpSwitch Fixes.orig d fields idx tv j [G, N] CN c = .ok ({ c with trailerBytes := c.rawBytes }, some (.grp j [G, N] C)) :=
   grpSwitch_orig_swallows hg fields idx j c tv t35 hmt hv hmN hh ht hng
 
+/-- THE TRIP THROUGH THE WIRE WITH NESTED GROUPS, WITHOUT DICTIONARY.  For every sequence of proper, SOH-free Message API
+    operations leaving BeginString and MsgType set and, under a body tag `G` that no other TagValue of the message carries, a
+    group field `G=<n>` + entries given as member blocks (`EntryOKB`: delimiter first, element fields and nested groups that
+    read back — `BlockOK`), where `S` contains the template's tags, the tags of all other fields and 10, and no other field
+    (nor 10) carries a template tag: `build`, `ParseMessage` (no dictionary), `GetGroup(template)` on the parsed body returns
+    one entry per entry written; entry `i` lists the member tags in order and maps each (distinct) tag to a range that starts
+    with that member's TagValues (element field, or count + entries of the nested group). -/
+theorem C13_trip_nodict_nested (fx : Fixes) (ops : List MOp) (hp : ∀ op ∈ ops, op.proper ∧ op.wire) (m : Message)
+    (hrun : runMOps ops Message.new = .ok m)
+    (h8 : (alFind m.header.lookup 8).isSome = true) (h35 : (alFind m.header.lookup 35).isSome = true)
+    (S : Tag → Prop) (G d : Tag) (tmplr : List Item) (es : List (List Block))
+    (hg : alFind m.body.lookup G = some (.owned (countTV G es.length :: es.flatMap serBlocks))) (gbody : secND G = .b)
+    (hes : ∀ e ∈ es, EntryOKB S d tmplr e) (hn : es.length < 9223372036854775808)
+    (hMg : ∀ tv ∈ es.flatMap serBlocks, tv.tag ≠ G)
+    (hS : ∀ t, t ∈ tmplTags (.elem d :: tmplr) → S t) (hS10 : S 10) (h10t : findItem (.elem d :: tmplr) 10 = none)
+    (others : ∀ s k l, alFind (m.sec s).lookup k = some (.owned l) → ¬ (s = .b ∧ k = G) →
+      ∀ tv ∈ l, tv.tag ≠ G ∧ S tv.tag ∧ findItem (.elem d :: tmplr) tv.tag = none)
+    (bytes : Bytes) (m' : Message) (hbuild : m.build Fixes.cur = .ok (bytes, m')) (hsmall : bytes.length < 9223372036854775808) :
+    ∃ (p : Message) (f : Field) (gs : List GEntry),
+      parseMessage fx Dicts.none bytes = .ok p ∧ alFind p.body.lookup G = some f ∧
+      getGroup (.elem d :: tmplr) (f.full p.fields) = .ok gs ∧ gs.length = es.length ∧
+      ∀ (i : Nat) (e : List Block), es[i]? = some e → ∃ g : GEntry, gs[i]? = some g ∧ g.tags = e.map (·.tag) ∧
+        ((e.map (·.tag)).Nodup → ∀ b ∈ e, ∃ tail, alFind g.lookup b.tag = some (b.tvs ++ tail)) := by
+  obtain ⟨hb, hw⟩ := runMOps_wired ops _ m Built.new Wired.new hp hrun
+  cases hf8 : alFind m.header.lookup 8 with
+  | none => rw [hf8] at h8; cases h8
+  | some f8 =>
+    cases hf35 : alFind m.header.lookup 35 with
+    | none => rw [hf35] at h35; cases h35
+    | some f35 =>
+      obtain ⟨l, hl⟩ := hb.ph.owned 8 f8 hf8
+      subst hl
+      obtain ⟨tv, rest, hl, ht⟩ := hb.ph.head 8 l hf8
+      subst hl
+      have hone := (hb.ph.special 8 _ hf8 tv (by simp) (Or.inl ht)).1
+      rw [hone] at hf8
+      obtain ⟨p, f, Z, hparse, hfind, hfull, hZ⟩ := trip_nodict_group_field fx m hb hw tv f35 hf8 hf35 G (countTV G es.length)
+        (es.flatMap serBlocks) hg rfl gbody hMg (fun s k l hl hne tv htv => (others s k l hl hne tv htv).1) bytes m' hbuild hsmall
+      have hZS : ∀ tvz ∈ Z, S tvz.tag ∧ findItem (.elem d :: tmplr) tvz.tag = none := by
+        intro tvz hz
+        rcases hZ tvz hz with e | ⟨s, k, l, hl, hne, hm⟩
+        · rw [e]; exact ⟨hS10, h10t⟩
+        · exact (others s k l hl hne tvz hm).2
+      obtain ⟨gs, hread, hlen, hent⟩ := C13_read_nested S G d tmplr Z hS
+        (fun f r hfr => (hZS f (by rw [hfr]; simp)).1) (fun f r hfr => (hZS f (by rw [hfr]; simp)).2) es hes hn
+      exact ⟨p, f, gs, hparse, hfind, by rw [hfull]; exact hread, hlen, hent⟩
+
 /-! ## not (yet) theorems -/
 
 /-- round trip without dictionary, any nesting depth: what `getgrp` must observe after build + parse -/
@@ -424,7 +471,7 @@ example :
 /- Clause checklist (properties.jsonl C13):
    "same number of entries"                                  C13_read_count, C13_write_starts_with_count, C13_read_zero
    with the dictionary that defines the group (no nested groups) C13_dict_flat_group_mid, C13_dict_flat_group_last (parseGroup + GetGroup through the dictionary template)
-   the whole trip build → parse (no dictionary) → GetGroup       C13_roundtrip_nodict_flat (templates without nesting; any message around the group)
+   the whole trip build → parse (no dictionary) → GetGroup       C13_trip_nodict_nested (nested groups, any depth, compositional), C13_roundtrip_nodict_flat (templates without nesting; any message around the group)
    "including nested groups" (any depth, compositional)          C13_roundtrip_nested (Write;Read), C13_read_nested, C13_nested_group_is_block,
                                                                  C13_nested_flat_is_block
    "same fields and values in the same order"                 C13_roundtrip_flat (Write then Read, templates without nesting, any setter calls),
